@@ -116,6 +116,17 @@ package Deep
     y = if x > 1 then 3 else 4;
   end Cond;
 
+  model UsesPi
+    parameter Real r = 2;
+    Real c;
+  equation
+    c = 2 * Modelica.Constants.pi * r;
+  end UsesPi;
+
+  model UsesSI
+    Modelica.SIunits.Length len = 1;
+  end UsesSI;
+
   model Broken1
     extends L1(nosuch = 3);
   end Broken1;
